@@ -13,7 +13,7 @@ ERROR awkward_index_carry(
   int64_t length) {
   for (int64_t i = 0;  i < length;  i++) {
     T j = carry[i];
-    if (j > lenfromindex) {
+    if (j < 0  ||  j >= lenfromindex) {
       return failure("index out of range", kSliceNone, j, FILENAME(__LINE__));
     }
     toindex[i] = fromindex[(size_t)(j)];
